@@ -278,6 +278,18 @@ def client(ctx, prog, ev, hier):
             if hier.catches(handler_names(h), "asyncio.TimeoutError", dl.fi.module) and "self.close()" in " ".join(unparse(s) for s in h.body):
                 okt = True
     ctx.ob("C10-D5/TIMEOUT", okt, dl.site(), "a peer timeout closes the connection", func=q)
+    # ... and every time-bounded wait stands INSIDE such a try (C10-r7m2: the request and the wait for the header moved in front of the try — the timeout then
+    # escapes to download_blob, where `except OSError: raise` comes first (TimeoutError is an OSError since 3.11) and nothing closes the connection)
+    covered = set()
+    for tr in dl.stmts(ast.Try):
+        if any(hier.catches(handler_names(h), "asyncio.TimeoutError", dl.fi.module) and "self.close()" in " ".join(unparse(s) for s in h.body) for h in tr.handlers):
+            for st in tr.body:
+                covered |= {id(x) for x in ast.walk(st)}
+    waits = [a for a in dl.local_nodes(ast.Await) if isinstance(a.value, ast.Call) and dotted(a.value.func) == "asyncio.wait_for"]
+    ctx.floor("C10-D5/TIMEOUT", "time-bounded waits of _download_blob", len(waits), 2, site=dl.site(), func=q)
+    for a in waits:
+        ctx.ob("C10-D5/TIMEOUT", id(a) in covered, dl.site(a), "the time-bounded wait stands inside the try whose TimeoutError handler closes the connection",
+               detail="" if id(a) in covered else "a timeout here leaves _download_blob without closing", func=q, key=f"C10-D5/TIMEOUT|{q}|covered|{unparse(a.value.args[0])[:40]}")
     rb = ctx.fa("lbry.blob_exchange.client.request_blob")
     cc = [c for c in rb.calls(name="create_connection")]
     for c in cc:
